@@ -19,7 +19,7 @@ import sys
 import threading
 import time
 import _thread
-from queue import Empty
+from queue import Empty, Full
 
 
 class Abort(BaseException):
@@ -77,7 +77,8 @@ class Execution:
     cur = None
 
     def __init__(self, prefix=(), timeouts=0, interrupts=0, line_mode=False, stop_at_seen=None,
-                 trace_files=("auditok/workers.py",)):
+                 trace_files=("auditok/workers.py",), policy=None):
+        self.policy = policy
         self.prefix = list(prefix)
         self.trace = []  # chosen indices
         self.nalts = []  # number of alternatives at each point
@@ -191,8 +192,14 @@ class Execution:
                 continue
             op = t.pending
             k = op[0]
-            if k in ("put", "get_nowait", "start", "begin", "line", "enumerate"):
+            if k in ("get_nowait", "start", "begin", "line", "enumerate", "is_alive", "qsize", "put_nowait"):
                 alts.append((t, "ok"))
+            elif k == "put":
+                q, timeout = op[1], op[2]
+                if not q._is_full():
+                    alts.append((t, "ok"))
+                elif timeout is not None and self.tbudget > 0:
+                    tout.append((t, "timeout"))
             elif k == "get":
                 q, timeout = op[1], op[2]
                 if q.items:
@@ -258,7 +265,7 @@ class Execution:
                 self._end(me, finishing)
                 return
         else:
-            c = 0
+            c = self.policy(alts, self) if self.policy is not None else 0
             if self.stop_at_seen is not None and s in self.stop_at_seen:
                 # equal signatures have equal futures: this subtree was (or is being) explored
                 self.pruned = True
@@ -332,10 +339,15 @@ class Execution:
 
 
 class CtlQueue:
-    """queue.Queue replacement whose blocking behaviour the scheduler decides."""
+    """queue.Queue replacement whose blocking behaviour the scheduler decides.
+
+    Every operation that observes or changes the queue from a controlled thread is a
+    scheduling point and is recorded (with its result) in that thread's history, so
+    that equal state signatures really mean equal futures."""
 
     def __init__(self, maxsize=0):
         self.items = collections.deque()
+        self.maxsize = maxsize
         ex = Execution.cur
         if ex is not None:
             ex.queues.append(self)
@@ -346,14 +358,26 @@ class CtlQueue:
             return None
         return ex
 
+    def _is_full(self):
+        return self.maxsize > 0 and len(self.items) >= self.maxsize
+
+    def _observe(self, what, value):
+        ex = self._ctl()
+        if ex is not None:
+            ex.point(("qsize", self))
+            value = value()
+            ex.record((what, value))
+            return value
+        return value()
+
     def qsize(self):
-        return len(self.items)
+        return self._observe("qsize", lambda: len(self.items))
 
     def empty(self):
-        return not self.items
+        return self._observe("empty", lambda: not self.items)
 
     def full(self):
-        return False
+        return self._observe("full", self._is_full)
 
     def task_done(self):
         pass
@@ -361,13 +385,29 @@ class CtlQueue:
     def put(self, m, block=True, timeout=None):
         ex = self._ctl()
         if ex is None:
+            if self._is_full():
+                raise Full
             self.items.append(m)
             return
-        ex.point(("put", self))
+        if not block:
+            return self.put_nowait(m)
+        dec = ex.point(("put", self, timeout))
+        if dec == "timeout":
+            ex.record(("put", "FULL-TIMEOUT"))
+            raise Full
         self.items.append(m)
         ex.record(("put", msgid(m)))
 
-    put_nowait = put
+    def put_nowait(self, m):
+        ex = self._ctl()
+        if ex is None:
+            return self.put(m)
+        ex.point(("put_nowait", self))
+        if self._is_full():
+            ex.record(("put_nowait", "FULL"))
+            raise Full
+        self.items.append(m)
+        ex.record(("put_nowait", msgid(m)))
 
     def get(self, block=True, timeout=None):
         ex = self._ctl()
@@ -423,6 +463,24 @@ def ctl_join(self, timeout=None):
     ex.record(("join", t.tid))
 
 
+def ctl_is_alive(self):
+    ex = Execution.cur
+    t = getattr(self, "_ctl_t", None)
+    if ex is None or ex.me() is None or ex.abort:
+        return bool(t is not None and t.started and not t.finished)
+    ex.point(("is_alive", t))
+    alive = bool(t is not None and t.started and not t.finished)
+    ex.record(("is_alive", alive))
+    return alive
+
+
+def ctl_ident(self):
+    t = getattr(self, "_ctl_t", None)
+    if t is None or not t.started:
+        return None
+    return 1000 + t.tid
+
+
 class _TimeShim:
     def __init__(self, real):
         self._real = real
@@ -471,6 +529,8 @@ def install():
     workers.Queue = CtlQueue
     workers.Worker.start = ctl_start
     workers.Worker.join = ctl_join
+    workers.Worker.is_alive = ctl_is_alive
+    workers.Worker.ident = property(ctl_ident)
     cmdline.time = _TimeShim(cmdline.time)
     cmdline.threading = _ThreadingShim(cmdline.threading)
     return workers
@@ -494,12 +554,34 @@ class Stats:
         self.wall = 0.0
 
 
-def run_once(make, prefix, timeouts=0, interrupts=0, line_mode=False, stop_at_seen=None):
+def starve_policy(name):
+    """Directed schedule: thread `name` runs only when nothing else can, and a producer blocked
+    on a full queue gives up (its put times out) before the starved thread is let in.  An idle
+    consumer's timeout is never preferred over progress, so the schedule is finite."""
+
+    def pol(alts, ex):
+        def rank(a):
+            t, dec = a
+            starved = t.name == name
+            if dec == "ok" and not starved:
+                return 0
+            if dec == "timeout" and not starved and t.pending[0] == "put":
+                return 1
+            if dec == "ok":
+                return 2
+            return 3
+
+        return min(range(len(alts)), key=lambda i: (rank(alts[i]), i))
+
+    return pol
+
+
+def run_once(make, prefix, timeouts=0, interrupts=0, line_mode=False, stop_at_seen=None, policy=None):
     """make() -> (main_fn, ctx).  Runs one execution; returns (execution, ctx)."""
     gc_was = gc.isenabled()
     gc.disable()
     try:
-        ex = Execution(prefix, timeouts, interrupts, line_mode, stop_at_seen)
+        ex = Execution(prefix, timeouts, interrupts, line_mode, stop_at_seen, policy=policy)
         Execution.cur = ex
         main_fn, ctx = make()
         ex.run(main_fn)
@@ -513,7 +595,8 @@ def run_once(make, prefix, timeouts=0, interrupts=0, line_mode=False, stop_at_se
 
 
 def explore(make, check, timeouts=0, interrupts=0, line_mode=False, preemption_bound=None,
-            max_executions=None, cleanup=None, max_violations=3, start_stack=None, only_root=False):
+            max_executions=None, cleanup=None, max_violations=3, start_stack=None, only_root=False,
+            return_leftover=False):
     """Exhaustive DFS by re-execution.
 
     sync mode (line_mode False): all interleavings, no preemption bound, state-cached.
@@ -581,7 +664,10 @@ def explore(make, check, timeouts=0, interrupts=0, line_mode=False, preemption_b
         if st.executions % 64 == 0:
             gc.collect()
         if max_executions and st.executions >= max_executions and stack:
-            st.cap_hit = "execution cap %d reached with %d prefixes pending" % (max_executions, len(stack))
+            if return_leftover:
+                st.stack = stack
+            else:
+                st.cap_hit = "execution cap %d reached with %d prefixes pending" % (max_executions, len(stack))
             break
         if len(st.violations) >= max_violations:
             if stack:
